@@ -4,3 +4,9 @@ pub fn first_words(s: &str, n: usize) -> String {
 pub fn short(s: &str, n: usize) -> String {
     s.chars().take(n).collect()
 }
+
+/// last `n` characters
+pub fn tail(s: &str, n: usize) -> String {
+    let k = s.chars().count();
+    s.chars().skip(k.saturating_sub(n)).collect()
+}
